@@ -137,12 +137,6 @@ Lemma translator_fixed warm xs sched t :
   t_pc (t_thr s t) = 3 -> t_res (t_thr s t) = TGot (xs t).
 Proof. cbn zeta. intros P. destruct (translator_own_data true warm xs sched t P) as [H|[H _]]; [exact H | discriminate]. Qed.
 
-(* the race: stale entry for value 0; T0 (value 1) and T1 (value 2) both look it up, then both delete it *)
-Lemma translator_refuted :
-  toutcome false (Some 0) [1; 2] [0; 1; 0; 1]
-  = ([TNone; TKeyError], [(0, DGet); (1, DGet); (0, DDel); (1, DDel)], None).
-Proof. vm_compute. reflexivity. Qed.
-
 (* ------------------------------------------------------------------------------------------------ cross-thread guard table *)
 
 Lemma guard_except_known o l : unguarded o l = false -> guard o l = true.
